@@ -113,6 +113,29 @@ pub fn damages(toks: &[Tok], table: &Table, text: &str, rng: &mut Rng) -> Vec<(S
     out
 }
 
+/// an extra operand glued to an existing one without any separator (shipped tables): a name
+/// directly behind a number (`1e5` is the number 1 and the variable e5, `2.5E1`, `4x`), a number
+/// directly in front of a name or a group (`7x`, `7(x)`)
+fn glued_damages(toks: &[Tok], table: &Table) -> Vec<(String, String)> {
+    let mut out = vec![];
+    for (i, t) in toks.iter().enumerate() {
+        let before = join_plain(&toks[..i], table);
+        let after = join_plain(&toks[i + 1..], table);
+        let plain_number = t.kind == TK::Num && t.text.chars().all(|c| c.is_ascii_digit() || c == '.');
+        if plain_number {
+            for name in ["e5", "E1", "e", "x", "e05", "E"] {
+                out.push(("extra variable glued to the right of a number".to_string(), format!("{before} {}{name} {after}", t.text).trim().to_string()));
+            }
+        }
+        if matches!(t.kind, TK::Var | TK::BVar) {
+            for num in ["7", "2.5", "1e"] {
+                out.push(("extra number glued to the left of a variable".to_string(), format!("{before} {num}{} {after}", t.text).trim().to_string()));
+            }
+        }
+    }
+    out
+}
+
 fn fixed_family(table: &Table) -> Vec<(String, String)> {
     let mut v: Vec<(String, String)> = vec![
         ("empty".into(), "".into()),
@@ -217,6 +240,9 @@ pub fn run(ctx: &Ctx) -> i32 {
             if i % 64 == 0 {
                 all.extend(fixed_family(tb));
             }
+            if fam != Family::Sym {
+                all.extend(glued_damages(&toks, tb));
+            }
             // a damaged text stays malformed when a whitespace-like character is put between two of
             // its tokens (whether a parser rejects such characters or skips them)
             let mut extra: Vec<(String, String)> = vec![];
@@ -259,7 +285,7 @@ pub fn run(ctx: &Ctx) -> i32 {
         }
     });
     let report = Report::new(
-        "well-formed texts rendered from random trees (1..24 operands; random tables over the term algebra, the shipped float table, the shipped value table; optional call notation, redundant parentheses, juxtaposed unary operators, braces) x EVERY single-point damage: delete each parenthesis; insert '(' / ')' / one illegal character at every character position outside braces; append each binary operator of the table (with and without trailing space); an extra operand (number, variable, braced variable, parenthesised operand) directly left and right of every primary operand token; plus the fixed family (empty, blank, operator-only, operand/operator count mismatch). Oracle: every parser entry point returns Err (FlatEx::parse, parse_wo_compile, DeepEx::parse, exmex::parse, eval_str f32/f64, parse_val i32/f64 and i64/f32). distinct_nontrivial = distinct (table family, tree shape) classes of the damaged originals; evaluations = damaged variants judged.",
+        "well-formed texts rendered from random trees (1..24 operands; random tables over the term algebra, the shipped float table, the shipped value table; optional call notation, redundant parentheses, juxtaposed unary operators, braces) x EVERY single-point damage: delete each parenthesis; insert '(' / ')' / one illegal character at every character position outside braces; append each binary operator of the table (with and without trailing space); an extra operand (number, variable, braced variable, parenthesised operand) directly left and right of every primary operand token, for the shipped tables also glued to it without a separator (`1e5`, `2.5E1`, `7x`); plus the fixed family (empty, blank, operator-only, operand/operator count mismatch). Oracle: every parser entry point returns Err (FlatEx::parse, parse_wo_compile, DeepEx::parse, exmex::parse, eval_str f32/f64, parse_val i32/f64 and i64/f32). distinct_nontrivial = distinct (table family, tree shape) classes of the damaged originals; evaluations = damaged variants judged.",
     )
     .assume("illegal characters are taken from a set disjoint from all operator names, identifier characters and literal syntaxes in use: $ ? @ \\ ~ ' \" ` § (tab/newline deliberately not included)")
     .assume("an extra operand is inserted only directly beside a primary operand token, never between a binary operator and a following sign")
@@ -267,6 +293,7 @@ pub fn run(ctx: &Ctx) -> i32 {
     .require("small_texts_with_all_damage_positions", 100)
     .require("damage: extra number right of an operand", 1000)
     .require("damage: delete", 1000)
+    .require("damage: extra variable glued to the right of a number", 1000)
     .require("damage: insert illegal character", 1000);
     finish(ctx, stats, report)
 }
